@@ -382,3 +382,86 @@ package keeper
 //@   ensures @C01 share:  err == nil && sender != pa && MOD != pa && X >= 0 && Y >= 0 ==>
 //@           bal(pa, xd) * bal(pa, od) * L * L >= X * Y * supply(lpt) * supply(lpt)
 //@ end
+
+// ---------------------------------------------------------------------------------------------
+// Swap dispatcher and message handlers (C02: user-facing settlement facts, bound, deadline)
+
+//@ define swSender(m) = addr(m.Input.Address)
+//@ define swRcpt(m) = rcptOf(addr(m.Input.Address), addr(m.Output.Address))
+//@ define swPoolA(m) = poolAddrOf(poolOf(ite(m.Input.Coin.Denom == STD, m.Output.Coin.Denom, m.Input.Coin.Denom)))
+//@ define swPoolB(m) = poolAddrOf(poolOf(ite(m.Output.Coin.Denom == STD, m.Input.Coin.Denom, m.Output.Coin.Denom)))
+//@ define swApart(m) = swSender(m) != swPoolA(m) && swSender(m) != swPoolB(m) && swRcpt(m) != swPoolA(m) && swRcpt(m) != swPoolB(m)
+//@                  && (m.Input.Coin.Denom != STD && m.Output.Coin.Denom != STD ==> swPoolA(m) != swPoolB(m))
+//@ define swValid(m) = m.Input.Coin.Amount > 0 && m.Output.Coin.Amount > 0 && m.Input.Coin.Denom != m.Output.Coin.Denom
+// what the sender paid of the input denom / what the recipient received of the output denom
+//@ define swPaid(m) = old(bal(swSender(m), m.Input.Coin.Denom)) - bal(swSender(m), m.Input.Coin.Denom)
+//@ define swGot(m) = bal(swRcpt(m), m.Output.Coin.Denom) - old(bal(swRcpt(m), m.Output.Coin.Denom))
+//@ define swSettled(m) = (!m.IsBuyOrder ==> swPaid(m) == m.Input.Coin.Amount && swGot(m) >= m.Output.Coin.Amount)
+//@                    && (m.IsBuyOrder ==> swGot(m) == m.Output.Coin.Amount && swPaid(m) <= m.Input.Coin.Amount && swPaid(m) >= 0)
+//@ define swOthers(m) = anyaddr(1) != swSender(m) && anyaddr(1) != swRcpt(m) && anyaddr(1) != swPoolA(m) && anyaddr(1) != swPoolB(m) ==> bal(anyaddr(1)) == old(bal(anyaddr(1)))
+//@ define swThirdDenoms(m) = anydenom(1) != m.Input.Coin.Denom && anydenom(1) != m.Output.Coin.Denom ==>
+//@                    bal(swSender(m), anydenom(1)) == old(bal(swSender(m), anydenom(1))) && bal(swRcpt(m), anydenom(1)) == old(bal(swRcpt(m), anydenom(1)))
+
+//@ func Keeper.Swap
+//@   property C02
+//@   returns err
+//@   requires paramsStored
+//@   requires swValid(msg)
+//@   modifies bal
+//@   ensures settled: err == nil && swApart(msg) ==> swSettled(msg)
+//@   ensures others:  err == nil && swApart(msg) ==> swOthers(msg)
+//@   ensures third_denoms: err == nil && swApart(msg) ==> swThirdDenoms(msg)
+//@ end
+
+//@ func msgServer.SwapCoin
+//@   property C02
+//@   returns resp, err
+//@   requires paramsStored
+//@   requires swValid(msg)
+//@   modifies bal
+//@   ensures deadline: err == nil ==> time <= msg.Deadline * 1000000000
+//@   ensures settled: err == nil && swApart(msg) ==> swSettled(msg)
+//@   ensures others:  err == nil && swApart(msg) ==> swOthers(msg)
+//@   ensures third_denoms: err == nil && swApart(msg) ==> swThirdDenoms(msg)
+//@ end
+
+//@ func msgServer.AddLiquidity
+//@   property C02
+//@   returns resp, err
+//@   requires paramsStored
+//@   requires msg.MaxToken.Amount > 0 && msg.ExactStandardAmt > 0 && msg.MinLiquidity >= 0
+//@   requires has(pools, types.GetPoolId(msg.MaxToken.Denom)) ==> poolWF(get(pools, types.GetPoolId(msg.MaxToken.Denom)), msg.MaxToken.Denom)
+//@   modifies bal, supply, pools, lptIndex, nextSeq
+//@   ensures deadline: err == nil ==> time <= msg.Deadline * 1000000000
+//@ end
+
+//@ func msgServer.RemoveLiquidity
+//@   property C02
+//@   returns resp, err
+//@   requires msg.WithdrawLiquidity.Amount > 0 && msg.MinToken >= 0 && msg.MinStandardAmt >= 0
+//@   let lpt = msg.WithdrawLiquidity.Denom
+//@   let pool = get(pools, ite(has(lptIndex, lpt), get(lptIndex, lpt), ""))
+//@   requires has(lptIndex, lpt) && has(pools, get(lptIndex, lpt)) ==> poolWF(pool, pool.CounterpartyDenom) && pool.LptDenom == lpt
+//@   modifies bal, supply
+//@   ensures deadline: err == nil ==> time <= msg.Deadline * 1000000000
+//@ end
+
+//@ func msgServer.AddUnilateralLiquidity
+//@   property C02
+//@   returns resp, err
+//@   requires paramsStored
+//@   requires msg.ExactToken.Amount > 0 && msg.MinLiquidity >= 0
+//@   requires has(pools, types.GetPoolId(msg.CounterpartyDenom)) ==> poolWF(get(pools, types.GetPoolId(msg.CounterpartyDenom)), msg.CounterpartyDenom)
+//@   modifies bal, supply
+//@   ensures deadline: err == nil ==> time <= msg.Deadline * 1000000000
+//@ end
+
+//@ func msgServer.RemoveUnilateralLiquidity
+//@   property C02
+//@   returns resp, err
+//@   requires paramsStored
+//@   requires msg.ExactLiquidity > 0 && msg.MinToken.Amount >= 0
+//@   requires has(pools, types.GetPoolId(msg.CounterpartyDenom)) ==> poolWF(get(pools, types.GetPoolId(msg.CounterpartyDenom)), msg.CounterpartyDenom)
+//@   modifies bal, supply
+//@   ensures deadline: err == nil ==> time <= msg.Deadline * 1000000000
+//@ end
